@@ -1028,8 +1028,10 @@ def mode_latestart(p):
             port = free_port(rng)
             cl[0] = start_clients(port, wd, [0.0] * p["clients"], [0.0] * p["clients"], False)    # clients poll until the port answers
             time.sleep(p.get("client_warmup", 0.5))
-            info["start_steps_done"] = int(sim.steps_done)
             sim.start_server(port=port)
+            # the iteration during which server_data became visible may be any between the call and its return: steps completed by
+            # now bound the one unprotected step from above (all iterations that began after the return are protected)
+            info["start_steps_done"] = int(sim.steps_done)
             info["port"] = port
         except Exception as e:
             info["err"] = repr(e)
